@@ -70,8 +70,8 @@ class C11(Check):
                 "Pox.C11.netInit_inv", "Pox.C11.arrive_current", "Pox.C11.current_reachable", "Pox.C11.known_dst_fresh_repaired",
                 "Pox.C11.ideal_repaired", "Pox.C11.net_known_dst_fresh_repaired", "Pox.L2.sweep_bounds",
                 "Pox.C11.known_dst_fresh_defect"]
-    anchors = [("pox/forwarding/l2_learning.py", 94, 174), ("pox/openflow/libopenflow_01.py", 2314, 2354),
-               ("pox/openflow/libopenflow_01.py", 3585, 3608)]
+    # name-based anchors, resolved on the current source at every run (the data setter is added in setup(): two defs are called `data`)
+    anchors = [("pox/forwarding/l2_learning.py", "LearningSwitch._handle_PacketIn"), ("pox/openflow/libopenflow_01.py", "ofp_flow_mod.pack")]
     design_ref = "DESIGN.md §5 C11"
     coverage_cases = 400
     technique = ("Lean 4 proof (invariant of the closed loop switch datapath + LearningSwitch controller over all frame histories with clock advances and "
@@ -124,6 +124,10 @@ class C11(Check):
         self.pk = (ethernet, ipv4, udp, arp, EthAddr, IPAddr)
         self.pins = []
         self.relearn, self.dropinport = self.read_repair_flags()
+        self.exactsig = self.read_exact_variant()
+        setter = self.resolve_setter("pox/openflow/libopenflow_01.py", "ofp_packet_out", "data")
+        self.anchors = list(type(self).anchors) + ([("pox/openflow/libopenflow_01.py",) + setter] if setter else
+                                                   [("pox/openflow/libopenflow_01.py", "ofp_packet_out.data.setter-not-found")])
         core.openflow.addListenerByName("PacketIn", lambda e: self.pins.append(e.dpid))
         self._dpid = 0
         self._fcache = {}
@@ -143,8 +147,39 @@ class C11(Check):
                                        (len(c.args) >= 2 or any(k.arg == "in_port" for k in c.keywords)) for c in ast.walk(drop))
         return relearn, dip
 
+    @staticmethod
+    def resolve_setter(rel, cls, prop):
+        """(first, last) line of `@<prop>.setter def <prop>` in class `cls`, from the current source"""
+        import ast, os
+        tree = ast.parse(open(os.path.join(common.REPO, rel)).read())
+        for c in tree.body:
+            if isinstance(c, ast.ClassDef) and c.name == cls:
+                for f in c.body:
+                    if isinstance(f, ast.FunctionDef) and f.name == prop and any(ast.unparse(d) == prop + ".setter" for d in f.decorator_list):
+                        return (min([f.lineno] + [d.lineno for d in f.decorator_list]), f.end_lineno)
+        return None
+
+    EXACT_SHAPES = {False: "return self.wildcards & OFPFW_ALL != 0",
+                    True: "return self.wildcards & ~self._unwire_wildcards(0) & OFPFW_ALL != 0"}
+
+    @staticmethod
+    def read_exact_variant():
+        """Does the tree rank a flow whose only wildcard bits sit on fields ignored for lack of prerequisites (ARP, non-IP: what from_packet gives
+        after the wire round trip) as EXACT (repair D26, fixes/C03_D26_exact_ignores_prereqless.diff)?  Read off `ofp_match.is_wildcarded` with
+        `ast` (same shapes as harness/c03.py detect_variant); an unknown shape is an error, not a guess.  The model takes it as a parameter
+        (`frameFull`); the correspondence (flow-table order and the exact bit of every entry are compared) validates the reading."""
+        import ast, os
+        tree = ast.parse(open(os.path.join(common.REPO, "pox", "openflow", "libopenflow_01.py")).read())
+        cls = next(n for n in tree.body if isinstance(n, ast.ClassDef) and n.name == "ofp_match")
+        fn = next(f for f in cls.body if isinstance(f, ast.FunctionDef) and f.name == "is_wildcarded")
+        text = "\n".join(ast.unparse(x) for x in fn.body if not (isinstance(x, ast.Expr) and isinstance(getattr(x, "value", None), ast.Constant)))
+        hits = [k for k, shape in C11.EXACT_SHAPES.items() if text == shape]
+        if len(hits) != 1: raise RuntimeError("ofp_match.is_wildcarded has a shape the C11 model does not know: " + text[:200])
+        return hits[0]
+
     def extra_evidence(self):
-        return {"l2_learning_variant": {"relearn_on_move": self.relearn, "drop_entry_has_in_port": self.dropinport}}
+        return {"l2_learning_variant": {"relearn_on_move": self.relearn, "drop_entry_has_in_port": self.dropinport},
+                "flow_table_variant": {"prerequisite_less_wildcards_rank_exact": self.exactsig}}
 
     def frame(self, src, dst, kind, key, pay):
         """real frame bytes; `key` goes where ofp_match.from_packet looks (UDP source port / ARP target address), `pay` where it does not"""
@@ -401,10 +436,10 @@ class C11(Check):
         for op in case["ops"]:
             if op["op"] == "rx":
                 ops.append({"op": "rx", "sw": op["sw"], "port": op["port"], "src": op["src"], "dst": op["dst"], "etype": etype_of(op["kind"]),
-                            "key": op["key"], "full": 1 if op["kind"] == "udp" else 0, "pay": op["pay"]})
+                            "key": op["key"], "l4": 1 if op["kind"] == "udp" else 0, "pay": op["pay"]})
             else:
                 ops.append(op)
-        return {"transparent": bool(case["transparent"]), "relearn": self.relearn, "dropinport": self.dropinport, "t0": T0_MS, "switches": case["switches"], "links": case.get("links", []), "ops": ops}
+        return {"transparent": bool(case["transparent"]), "relearn": self.relearn, "dropinport": self.dropinport, "exactsig": self.exactsig, "t0": T0_MS, "switches": case["switches"], "links": case.get("links", []), "ops": ops}
 
     def model_obs(self, case, resp):
         return resp
